@@ -23,6 +23,7 @@ std::string label_hash(const gr_face *face, unsigned k) {
 }
 std::string shape_hash(const gr_face *face, const gr_font *font, const std::string &t, int dir) {
     const size_t nch = gr_count_unicode_characters(gr_utf8, t.data(), t.data() + t.size(), 0);
+    GRV_WATCHDOG;
     gr_segment *s = gr_make_seg(font, face, 0, 0, gr_utf8, t.data(), nch, dir);
     SegP p = project(s, face, font, true);
     std::string d = dump(p);
